@@ -793,7 +793,9 @@ def rule_lk1(ctx, rels, scope=None):
                                 ("dtype", "_dtype")):
                         bufs[n.targets[0].id] = (n, dotted(kw["dtype"]),
                                                  False, False)
-                    if fn.startswith("utils.") and "like" in kw:
+                    if (fn.startswith("utils.") or fn in (
+                            "zeros", "ones", "identity", "number",
+                            "array_like")) and "like" in kw:
                         likedefs.add((n.targets[0].id, dotted(kw["like"])))
             for n in ast.walk(f.node):
                 if isinstance(n, ast.Assign):
@@ -847,6 +849,65 @@ def rule_lk1(ctx, rels, scope=None):
                         # a block of caller data copied into the buffer:
                         # same provenance as `like` in these constructors
                         safe = True
+                    # entries of the `like` value itself, gathered /
+                    # re-arranged (np.take_along_axis, squeeze, swapaxes ...)
+                    REARRANGE = ("np.take_along_axis", "np.squeeze",
+                                 "np.expand_dims", "np.swapaxes",
+                                 "np.moveaxis", "np.take", "np.roll",
+                                 "np.flip", "np.transpose", "np.copy")
+                    vnames = {x.id for x in ast.walk(v)
+                              if isinstance(x, ast.Name)
+                              and x.id not in ("np", "utils")}
+                    gathered = {a for a, b in likedefs if b == like}
+                    sd = single_defs(f.node)
+                    grew = True
+                    while grew:
+                        grew = False
+                        for nm, val in sd.items():
+                            if nm in gathered or not (
+                                    isinstance(val, ast.Call)
+                                    and dotted(val.func) in REARRANGE
+                                    and val.args):
+                                continue
+                            root0 = dotted(val.args[0]).split(".")[0] \
+                                .split("[")[0]
+                            if root0 == like.split(".")[0] \
+                                    or root0 in gathered:
+                                gathered.add(nm)
+                                grew = True
+                    if not like.startswith("<") and vnames and all(
+                            isinstance(c, ast.Call) and (
+                                dotted(c.func) in REARRANGE or (
+                                    isinstance(c.func, ast.Attribute)
+                                    and c.func.attr in (
+                                        "squeeze", "swapaxes", "copy",
+                                        "reshape", "transpose")))
+                            for c in ast.walk(v)
+                            if isinstance(c, ast.Call)) and not any(
+                            isinstance(x, ast.BinOp) for x in ast.walk(v)):
+                        roots = {x.id for x in ast.walk(v)
+                                 if isinstance(x, ast.Name)
+                                 and isinstance(x.ctx, ast.Load)
+                                 and x.id not in ("np", "utils")}
+                        # names used only as indices do not matter
+                        data_roots = set()
+                        for c in ast.walk(v):
+                            if isinstance(c, ast.Call) and c.args:
+                                a0 = c.args[0]
+                                while isinstance(a0, (ast.Subscript,
+                                                      ast.Attribute,
+                                                      ast.Call)):
+                                    a0 = a0.value if not isinstance(
+                                        a0, ast.Call) else (
+                                        a0.func.value if isinstance(
+                                            a0.func, ast.Attribute)
+                                        else (a0.args[0] if a0.args
+                                              else a0.func))
+                                if isinstance(a0, ast.Name):
+                                    data_roots.add(a0.id)
+                        if data_roots and data_roots <= (
+                                {like.split(".")[0]} | gathered):
+                            safe = True
                     computed = any(isinstance(x, ast.Call) or (
                         isinstance(x, ast.BinOp)
                         and isinstance(x.op, (ast.Div, ast.Pow, ast.Mult)))
